@@ -247,7 +247,7 @@ def trajectory_cases(base_cases, tier, rng):
 # per property: which cases, what to observe, which clauses decide
 PLANS = {
     "C01": dict(rel=rel_C01, also={"neg": dict(variants=1, generic=2, corners=0)}, want={"np": True, "fn": fns((0,))},
-                quick=dict(n=3, m=3, variants=2, generic=1, corners=13, rand=60),
+                quick=dict(n=3, m=3, variants=3, generic=1, corners=13, rand=60),
                 thorough=dict(n=4, m=5, variants=3, generic=2, corners=13, rand=1500)),
     "C02": dict(rel=rel_C02, traj=True, also={"neg": dict(variants=2, generic=2, corners=1)}, want={"np": True, "fn": fns((0,), more_out=(True,))},
                 quick=dict(n=3, m=3, variants=2, generic=1, corners=13, rand=60),
@@ -259,7 +259,10 @@ PLANS = {
     "C05": dict(rel=rel_C05, traj=True, want=lambda c: {"np": False, "fn": fns((0, 1, 2), more_out=(True,))
                                              + fns((0,), more_out=(True,), syms=("SX",), generic_calls=2,
                                                    params=[{"kind": "T", "el": "*"}, {"kind": "C", "el": "*"},
-                                                           {"kind": "rho_crit", "el": "*"}])},
+                                                           {"kind": "rho_crit", "el": "*"}])
+                                             # per-link symbols, the first one labelled by the bare attribute name
+                                             + fns((1,), more_out=(True,), syms=("MX",), generic_calls=2, first_bare=True,
+                                                   params=[{"kind": k_, "el": l_} for k_ in ("rho_crit", "rho_max", "a") for l_ in c["net"]["links"]])},
                 quick=dict(n=3, m=3, variants=1, generic=1, corners=13, rand=40),
                 thorough=dict(n=4, m=5, variants=2, generic=2, corners=13, rand=1000)),
     "C07": dict(rel=rel_C07, want={"np": True, "np_own": True, "fn": fns((-1, 0, 1, 2, 3)) + fns((2,), more_out=(True,))},
@@ -283,15 +286,15 @@ PLANS = {
                 quick=dict(n=3, m=3, variants=2, generic=1, corners=1, rand=40),
                 thorough=dict(n=4, m=5, variants=3, generic=1, corners=3, rand=600)),
     "C14": dict(rel=rel_C14, derive=("perm", "scale", "dupnames"), want={"np": True, "fn": fns((0,)) + fns((1,), syms=("SX",))},
-                quick=dict(n=3, m=3, variants=1, generic=1, corners=1, rand=30),
-                thorough=dict(n=4, m=5, variants=2, generic=1, corners=2, rand=400, nderive=3)),
+                quick=dict(n=3, m=3, variants=3, generic=1, corners=0, rand=30, nderive=2),
+                thorough=dict(n=4, m=5, variants=3, generic=1, corners=2, rand=400, nderive=3)),
     "C18": dict(rel=rel_C18, family="neutral", want={"np": True, "twin": True, "fn": fns((0,))},
                 quick=dict(n=3, m=3, variants=3, generic=1, corners=2, rand=0),
                 thorough=dict(n=4, m=5, variants=5, generic=2, corners=4, rand=0)),
     "C16": dict(rel=rel_C16, want=lambda c: {"np": False, "fn": param_fns(c, levels=(0, 2), more_out=(False, True), nsets=3)
                                              + fns((0,), more_out=(True,), syms=("SX" if sum(c["id"].encode()) % 2 else "MX",))},
-                quick=dict(n=3, m=3, variants=1, generic=1, corners=1, rand=30),
-                thorough=dict(n=4, m=5, variants=1, generic=1, corners=3, rand=300)),
+                quick=dict(n=3, m=3, variants=3, generic=1, corners=1, rand=30),
+                thorough=dict(n=4, m=5, variants=3, generic=1, corners=3, rand=300)),
     "C17": dict(rel=rel_C17, traj=True, want={"np": True, "fn": fns((0,), more_out=(True,))},
                 quick=dict(n=3, m=3, variants=2, generic=1, corners=13, rand=60),
                 thorough=dict(n=4, m=5, variants=3, generic=2, corners=13, rand=1500)),
